@@ -1,4 +1,5 @@
 //! sc_sim — deterministic simulation of concurrent callers of `string_calculator` (property C16).
+#![recursion_limit = "512"]
 mod case;
 mod disk;
 mod driver;
